@@ -568,6 +568,11 @@ impl Machine {
         // NOTE: create a choice point to terminate the dispatch_loop
         // if an exception is thrown.
 
+        // NOTE: backtracking to the stub must not truncate the heap below
+        // its current length: the cells at the start of the heap (the
+        // interstitial cell and the preallocated resource error) stay live.
+        let h = self.machine_st.heap.cell_len();
+
         let stub_b = self.machine_st.stack.allocate_or_frame(0)?;
         let or_frame = self.machine_st.stack.index_or_frame_mut(stub_b);
 
@@ -579,7 +584,7 @@ impl Machine {
         or_frame.prelude.boip = 0;
         or_frame.prelude.biip = 0;
         or_frame.prelude.tr = 0;
-        or_frame.prelude.h = 0;
+        or_frame.prelude.h = h;
         or_frame.prelude.b0 = 0;
         or_frame.prelude.attr_var_queue_len = 0;
 
